@@ -1,4 +1,5 @@
 //! Seeded generators and mutators.
 pub mod doc;
+pub mod dynval;
 pub mod mutate;
 pub mod tokens;
